@@ -13,6 +13,51 @@ pub fn update<S: Source>(s: &mut S, shapes: &[&[usize]], has_grad: &[bool], repe
     update_with(s, shapes, has_grad, repeats, false)
 }
 
+/// gradients come from a real pass through an addition: `p`'s, `q`'s and the sum's gradients
+/// all sit on one shared buffer; the update must step both and must not panic
+pub fn update_after_add<S: Source>(s: &mut S) {
+    let lr = s.lr();
+    let mut p = mk(s, &[2], Dom::D4).tracked();
+    let mut q = mk(s, &[2], Dom::D4).tracked();
+    let (op, oq) = (p.values().to_vec(), q.values().to_vec());
+    let r = &p + &q;
+    let seed = s.vals(2, Dom::D4);
+    r.backward(Some(Array::from((vec![2], seed.clone()))));
+    let held: Array = p.gradient().as_ref().unwrap().clone();
+    GradientDescent::new(lr).update(vec![&mut p, &mut q]);
+    for j in 0..2 {
+        chk!(p.values()[j] == op[j] - lr * seed[j], "[c13:step] new value is not old - lr * gradient of this parameter");
+        chk!(q.values()[j] == oq[j] - lr * seed[j], "[c13:step] new value is not old - lr * gradient of this parameter");
+    }
+    chk!(p.gradient().is_none() && q.gradient().is_none(), "[c13:gradient-left] a parameter still holds a gradient after the update");
+    witness();
+    forget((p, q, r, held));
+}
+
+/// a parameter that holds a gradient while its tracking is switched off at update time is
+/// stepped like any other and comes back tracked
+pub fn update_grad_while_untracked<S: Source>(s: &mut S) {
+    let lr = s.lr();
+    let mut p = mk(s, &[2], Dom::D4).tracked();
+    let old = p.values().to_vec();
+    let g = s.vals(2, Dom::D4);
+    *p.gradient_mut() = Some(Array::from((vec![2], g.clone())));
+    p.stop_tracking();
+    let keep = p.clone();
+    GradientDescent::new(lr).update(vec![&mut p]);
+    for j in 0..2 {
+        chk!(p.values()[j] == old[j] - lr * g[j], "[c13:step] new value is not old - lr * gradient of this parameter");
+    }
+    let was = p.stop_tracking();
+    if was {
+        p.start_tracking();
+    }
+    chk!(was, "[c13:untracked] an updated parameter is not tracked");
+    chk!(p.gradient().is_none(), "[c13:gradient-left] a parameter still holds a gradient after the update");
+    witness();
+    forget((p, keep));
+}
+
 /// `frozen_untracked`: the parameters without a gradient are frozen the way a user freezes
 /// them (`stop_tracking()`); "left untouched" then includes the tracking flag
 pub fn update_with<S: Source>(s: &mut S, shapes: &[&[usize]], has_grad: &[bool], repeats: usize, frozen_untracked: bool) {
